@@ -4,6 +4,9 @@
 #include <stdlib.h>
 #include <limits.h>
 
+void (*vh_pre_call_hook)(vh_obj *ob, int is_cleanup_of_object, int op_index);
+void (*vh_post_call_hook)(vh_obj *ob, int op_index);
+
 const char *const c_kind_names[C_NKINDS] = {"init", "cleanup", "set_key", "set_tweaked_key", "set_tweak", "set_counter", "encrypt"};
 
 /* ------------------------------------------------------------------ */
@@ -422,64 +425,71 @@ static uint8_t *place(int arena, const cop *o, int which, size_t n)
     return (o->flags & F_FRONT) ? vh_gfront(arena, n, mis) : vh_gback(arena, n, mis);
 }
 
-void chist_run(const chist *h, ctrans *t, const char *prefix)
+void chist_exec(const chist *h, int i, vh_obj *ob, ctrans *t, const char *prefix)
 {
     const vh_cipher *c = h->c;
-    vh_handle H;
-    int i, live = 0;
     char key[256];
-    memset(&H, 0, sizeof(H));
-    t->out_n = 0; t->backend = -1; t->canary_damage = 0; t->canary_where = 0;
-    for (i = 0; i < h->n; ++i) {
-        const cop *o = &h->ops[i];
-        vh_handle *obj = (o->flags & F_NULL_OBJ) ? NULL : &H;
-        uint8_t *a = NULL, *b = NULL;
-        int ret = -1, used_a = 0, used_b = 0;
-        long where = 0;
-        snprintf(key, sizeof(key), "%s:%s", prefix, o->cls ? o->cls : c_kind_names[o->kind]);
-        vh_set_crash_key(key);
-        t->r[i].ooff = (uint32_t)t->out_n; t->r[i].olen = 0;
-        if (o->kind >= C_SET_KEY && o->kind <= C_SET_COUNTER && !(o->flags & F_NULL_PTR)) {
-            a = place(0, o, 0, o->dlen); used_a = 1;
-            memcpy(a, h->pool + o->doff, o->dlen);
-        }
-        switch (o->kind) {
-        case C_INIT:
-            vh_call_begin("ctr_init"); ret = c->ctr_init(obj); vh_call_end();
-            if (obj && ret) { live = 1; if (t->backend < 0) t->backend = c->ctr_backend(&H); }
-            break;
-        case C_CLEANUP:
-            vh_call_begin("ctr_cleanup"); c->ctr_cleanup(obj); vh_call_end();
-            if (obj) live = 0;
-            break;
-        case C_SET_KEY:
-            vh_call_begin("ctr_set_key"); ret = c->ctr_set_key(obj, a, o->len, o->rounds); vh_call_end(); break;
-        case C_SET_TKEY:
-            vh_call_begin("ctr_set_tweaked_key"); ret = c->ctr_set_tkey(obj, a, o->len); vh_call_end(); break;
-        case C_SET_TWEAK:
-            vh_call_begin("ctr_set_tweak"); ret = c->ctr_set_tweak(obj, a, o->len); vh_call_end(); break;
-        case C_SET_COUNTER:
-            vh_call_begin("ctr_set_counter"); ret = c->ctr_set_counter(obj, a, o->len); vh_call_end(); break;
-        case C_ENCRYPT: {
-            uint8_t *in = NULL, *out = NULL;
-            if (!(o->flags & F_NULL_IN) || (o->flags & F_INPLACE)) { a = place(1, o, 0, o->len); used_a = 2; memcpy(a, h->pool + o->doff, o->len); }
-            if (!(o->flags & F_NULL_IN)) in = a;
-            if (!(o->flags & F_NULL_OUT)) {
-                if (o->flags & F_INPLACE) { out = a; }
-                else { b = place(2, o, 1, o->len); used_b = 1; memset(b, 0xEE, o->len); out = b; }
-            }
-            vh_call_begin("ctr_encrypt"); ret = c->ctr_encrypt(out, in, o->len, obj); vh_call_end();
-            if (ret && out && t->out_n + o->len <= H_OUT) {
-                memcpy(t->out + t->out_n, out, o->len);
-                t->r[i].olen = o->len; t->out_n += o->len;
-            }
-            break; }
-        }
-        t->r[i].ret = ret;
-        if (used_a && vh_gcheck(used_a == 2 ? 1 : 0, &where) && !t->canary_damage) { t->canary_damage = i + 1; t->canary_where = where; }
-        if (used_b && vh_gcheck(2, &where) && !t->canary_damage) { t->canary_damage = i + 1; t->canary_where = where; }
+    const cop *o = &h->ops[i];
+    vh_handle *obj = (o->flags & F_NULL_OBJ) ? NULL : &ob->H;
+    uint8_t *a = NULL, *b = NULL;
+    int ret = -1, used_a = 0, used_b = 0;
+    long where = 0;
+    snprintf(key, sizeof(key), "%s:%s", prefix, o->cls ? o->cls : c_kind_names[o->kind]);
+    vh_set_crash_key(key);
+    t->r[i].ooff = (uint32_t)t->out_n; t->r[i].olen = 0;
+    if (o->kind >= C_SET_KEY && o->kind <= C_SET_COUNTER && !(o->flags & F_NULL_PTR)) {
+        a = place(0, o, 0, o->dlen); used_a = 1;
+        memcpy(a, h->pool + o->doff, o->dlen);
     }
-    if (live) { vh_set_crash_key(prefix); vh_call_begin("ctr_cleanup"); c->ctr_cleanup(&H); vh_call_end(); }
+    if (vh_pre_call_hook) vh_pre_call_hook(ob, o->kind == C_CLEANUP && obj, i);
+    switch (o->kind) {
+    case C_INIT:
+        vh_call_begin("ctr_init"); ret = c->ctr_init(obj); vh_call_end();
+        if (obj && ret) { ob->live = 1; if (t->backend < 0) t->backend = c->ctr_backend(&ob->H); }
+        break;
+    case C_CLEANUP:
+        vh_call_begin("ctr_cleanup"); c->ctr_cleanup(obj); vh_call_end();
+        if (obj) ob->live = 0;
+        break;
+    case C_SET_KEY:
+        vh_call_begin("ctr_set_key"); ret = c->ctr_set_key(obj, a, o->len, o->rounds); vh_call_end(); break;
+    case C_SET_TKEY:
+        vh_call_begin("ctr_set_tweaked_key"); ret = c->ctr_set_tkey(obj, a, o->len); vh_call_end(); break;
+    case C_SET_TWEAK:
+        vh_call_begin("ctr_set_tweak"); ret = c->ctr_set_tweak(obj, a, o->len); vh_call_end(); break;
+    case C_SET_COUNTER:
+        vh_call_begin("ctr_set_counter"); ret = c->ctr_set_counter(obj, a, o->len); vh_call_end(); break;
+    case C_ENCRYPT: {
+        uint8_t *in = NULL, *out = NULL;
+        if (!(o->flags & F_NULL_IN) || (o->flags & F_INPLACE)) { a = place(1, o, 0, o->len); used_a = 2; memcpy(a, h->pool + o->doff, o->len); }
+        if (!(o->flags & F_NULL_IN)) in = a;
+        if (!(o->flags & F_NULL_OUT)) {
+            if (o->flags & F_INPLACE) { out = a; }
+            else { b = place(2, o, 1, o->len); used_b = 1; memset(b, 0xEE, o->len); out = b; }
+        }
+        vh_call_begin("ctr_encrypt"); ret = c->ctr_encrypt(out, in, o->len, obj); vh_call_end();
+        if (ret && out && t->out_n + o->len <= H_OUT) {
+            memcpy(t->out + t->out_n, out, o->len);
+            t->r[i].olen = o->len; t->out_n += o->len;
+        }
+        break; }
+    }
+    if (vh_post_call_hook) vh_post_call_hook(ob, i);
+    t->r[i].ret = ret;
+    if (used_a && vh_gcheck(used_a == 2 ? 1 : 0, &where) && !t->canary_damage) { t->canary_damage = i + 1; t->canary_where = where; }
+    if (used_b && vh_gcheck(2, &where) && !t->canary_damage) { t->canary_damage = i + 1; t->canary_where = where; }
+}
+
+void ctrans_reset(ctrans *t) { t->out_n = 0; t->backend = -1; t->canary_damage = 0; t->canary_where = 0; }
+
+void chist_run(const chist *h, ctrans *t, const char *prefix)
+{
+    vh_obj ob;
+    int i;
+    memset(&ob, 0, sizeof(ob));
+    ctrans_reset(t);
+    for (i = 0; i < h->n; ++i) chist_exec(h, i, &ob, t, prefix);
+    if (ob.live) { vh_set_crash_key(prefix); vh_call_begin("ctr_cleanup"); h->c->ctr_cleanup(&ob.H); vh_call_end(); }
 }
 
 /* ------------------------------------------------------------------ */
